@@ -1,2 +1,89 @@
-(* placeholder until Disp.v lands *)
-From EV Require Import CLModel.
+(* Properties_C04.v — C04: dispatch reaches exactly the dispatched event's listeners,
+   arguments intact.
+
+   (1) Routing and argument integrity at the call sites, for EVERY evaluation order a
+       conforming compiler may choose: the shapes of dispatch() and enqueue() are read off
+       the headers by tie A (GenDisp) and must be Statement or Braced.
+   (2) Per event, every listener operation IS the callback-list operation: the dispatcher
+       harness runs the callback-list cases with list slot L = event key keyOf(L) against
+       the proved model, so C01/C02's refinement theorem is the statement (restated here).
+   Only theorems (closed by `exact`), examples and Print Assumptions. *)
+From Coq Require Import List Arith NArith Bool Permutation.
+From EV Require Import CLModel CLSpec CLRefine CLSim CLMain CallShape.
+From EV.gen Require GenCL GenDisp.
+Import ListNotations.
+
+(* EventDispatcher::dispatch(Args...): whatever the number of arguments, whichever of them are
+   movable by-value types, whichever of them the getEvent policy reads, and whatever order the
+   compiler evaluates the arguments in: the key is computed from the caller's values and every
+   listener parameter receives the caller's value. *)
+Theorem C04_dispatch_key_and_arguments_intact :
+  forall n movable kread env evs,
+    length env = n -> admissible n GenDisp.dispatch_shape evs ->
+    key (run movable kread false env evs) = Some (map (fun i => nth i env MovedFrom) kread) /\
+    forall i, i < n -> plookup i (params (run movable kread false env evs)) = Some (nth i env MovedFrom).
+Proof.
+  intros n movable kread env evs.
+  exact (sequenced_site_intact n movable kread false GenDisp.dispatch_shape env evs
+           (fun E => match E in (_ = s) return (match s with GenDisp.Call => False | _ => True end) with eq_refl => I end) eq_refl).
+Qed.
+Print Assumptions C04_dispatch_key_and_arguments_intact.
+
+(* the same for dispatch(T && first, Args...) and for the two enqueue overloads of EventQueue *)
+Theorem C04_dispatch_first_key_and_arguments_intact :
+  forall n movable kread env evs,
+    length env = n -> admissible n GenDisp.dispatch_first_shape evs ->
+    key (run movable kread false env evs) = Some (map (fun i => nth i env MovedFrom) kread) /\
+    forall i, i < n -> plookup i (params (run movable kread false env evs)) = Some (nth i env MovedFrom).
+Proof.
+  intros n movable kread env evs.
+  exact (sequenced_site_intact n movable kread false GenDisp.dispatch_first_shape env evs
+           (fun E => match E in (_ = s) return (match s with GenDisp.Call => False | _ => True end) with eq_refl => I end) eq_refl).
+Qed.
+Print Assumptions C04_dispatch_first_key_and_arguments_intact.
+
+Theorem C04_enqueue_key_and_arguments_intact :
+  forall n movable kread env evs,
+    length env = n ->
+    (admissible n GenDisp.enqueue_shape evs \/ admissible n GenDisp.enqueue_first_shape evs) ->
+    key (run movable kread false env evs) = Some (map (fun i => nth i env MovedFrom) kread) /\
+    forall i, i < n -> plookup i (params (run movable kread false env evs)) = Some (nth i env MovedFrom).
+Proof.
+  intros n movable kread env evs Hl [H|H].
+  - exact (sequenced_site_intact n movable kread false GenDisp.enqueue_shape env evs
+             (fun E => match E in (_ = s) return (match s with GenDisp.Call => False | _ => True end) with eq_refl => I end) eq_refl Hl H).
+  - exact (sequenced_site_intact n movable kread false GenDisp.enqueue_first_shape env evs
+             (fun E => match E in (_ = s) return (match s with GenDisp.Call => False | _ => True end) with eq_refl => I end) eq_refl Hl H).
+Qed.
+Print Assumptions C04_enqueue_key_and_arguments_intact.
+
+(* regression witness (the defect repaired by 583643a): with key and forwarded arguments as
+   siblings of one call, an admissible order reads the key from a moved-from argument *)
+Theorem C04_unsequenced_call_shape_refuted :
+  forall n movable kread env,
+    1 <= n -> movable 0 = true -> In 0 kread -> length env = n ->
+    exists evs, admissible n GenDisp.Call evs /\
+                exists k, key (run movable kread false env evs) = Some k /\ In MovedFrom k.
+Proof. intros n movable kread env. exact (call_site_refuted n movable kread false env). Qed.
+Print Assumptions C04_unsequenced_call_shape_refuted.
+
+(* per event, listener management and invocation are the callback-list operations: list slot l
+   of the model is the listener list of event key l; C01/C02's refinement is the statement *)
+Theorem C04_per_event_operations_refine_list_spec :
+  forall W behav fuel nl prog st',
+    (0 < W)%N -> core_behav behav -> core_prog prog ->
+    CLModel.run W GenCL.remove_checks_removed GenCL.insert_checks_removed GenCL.owns_checks_removed behav fuel (init nl) prog = Some st' ->
+    wrapped st' = false ->
+    exists sst', s_run behav fuel (s_init nl) prog = Some sst' /\ strace sst' = trace st' /\ R W st' sst'.
+Proof. exact cl_run_refines. Qed.
+Print Assumptions C04_per_event_operations_refine_list_spec.
+
+(* non-vacuity: three arguments, the first (the key) and third movable, evaluated right to left after the key *)
+Example C04_hypotheses_satisfiable :
+  admissible 3 GenDisp.dispatch_shape [EKey; EFwd 2; EFwd 1; EFwd 0] /\
+  key (run (fun i => negb (Nat.eqb i 1)) [0] false [Val 5; Val 6; Val 7] [EKey; EFwd 2; EFwd 1; EFwd 0]) = Some [Val 5].
+Proof.
+  split; [|reflexivity]. split; [|eexists; reflexivity].
+  unfold all_events. simpl. apply perm_skip.
+  apply Permutation_sym. apply (Permutation_rev [EFwd 0; EFwd 1; EFwd 2]).
+Qed.
